@@ -199,6 +199,9 @@ func c10Interactive(x *xctx) *violation {
 	prof := encodeProfile(p)
 	sts := c10ProfileTypes(nt)
 	n := 2 + t.Choose(K, 10)
+	if t.Bool(simrt.KCfg, 5) {
+		n = 25 + t.Choose(K, 25) // state that builds up over many steps
+	}
 	var steps []c10step
 	for i := 0; i < n; i++ {
 		if t.Bool(K, 40) {
